@@ -163,6 +163,18 @@ PROPS = {
         'out': 'arbitrary byte strings into the protobuf / base64 / PEM / Datalog parsers, printing, adversarial block contents (out-of-range symbol and key ids), hangs, deep nesting: only the index arithmetic of the block accessors is decided; evaluation totality is C06, budget arithmetic C10, key/signature length guards C17',
         'level_text': 'Accessor index arithmetic only: bounded symbolic execution of the block accessors for every index on small directly built tokens.',
     },
+    'C13': {
+        'crate': 'biscuit-auth',
+        'quick': [r'c13_\w+'],
+        'thorough': [],
+        'cap': {'quick': 600, 'thorough': 1800},
+        'per_harness': {r'c13_\w+': {'unwindset': 'memcmp.0:40'}},
+        'functions': ['token::authorizer::Authorizer::snapshot (empty authorizer)', 'token::authorizer::snapshot::{authorizer_origin_to_proto_origin,proto_origin_to_authorizer_origin}'],
+        'bounds': 'empty authorizer (no token, facts, rules, checks, policies); fact / iteration budgets and iteration count: any u64; time budget and time spent: any Duration; origin sets of up to 3 ids in 0..62 or the authorizer id',
+        'stubs': ['alloc::fmt::format'],
+        'out': 'the bulk of the property: symbol translation, reloading of blocks, facts per origin, policies, from_snapshot (strings + protobuf + whole-authorizer state) - only the numeric envelope and the origin encoding are decided',
+        'level_text': 'Numeric envelope only: bounded symbolic execution of snapshot() on an empty authorizer for every value of the limits and counters.',
+    },
 }
 
 
